@@ -30,8 +30,9 @@ ASSUMPTIONS = [
     "on the exact binary value); the spelling of that decimal and the decimal->double parse are trusted and validated by "
     "the byte comparison of the second/third write",
     "tables handed to the writers have their columns in class order (as every table cnvkit reads or builds has)",
-    "gene labels and chromosome names are not pandas NA spellings (NA, nan, NULL, None, ...), not purely numeric with "
-    "leading zeros, and contain no tab/quote/@/# characters; floats are finite, not -0.0, not subnormal",
+    "chromosome names (and gene labels outside tab files: interval lists, SEG) are not pandas NA spellings (NA, nan, NULL, "
+    "None, ...), not purely numeric with leading zeros, and contain no tab/quote/@/# characters; floats are finite, "
+    "not -0.0, not subnormal",
 ]
 TRUSTED_EXTRA = ["pandas read_csv / to_csv tokenising, dtype inference and NA spellings", "Python re for the sniff patterns and re_label",
                  "Python/pandas decimal printing of ints and '%.6g'", "pandas stable multi-key mergesort on (tuple key, start, end)"]
@@ -148,7 +149,11 @@ def _cell_f(x):
     return ["f", frac(x)]
 
 
-def _table(rng, cna=None, rows=None, want_probes=None, **kw):
+# labels pandas would take for missing values or numbers if the gene column were not read as text
+FREE_GENES = ["NA", "null", "None", "nan", "NULL", "N/A", "7157", "0012", "1e5", "-0", "#N/A"]
+
+
+def _table(rng, cna=None, rows=None, want_probes=None, free_genes=False, **kw):
     """a table {"names": [...], "rows": [[chrom,s,e,[cells]]]} with class-ordered columns"""
     rows = rows if rows is not None else _regions(rng, **kw)
     cna = rng.random() < 0.6 if cna is None else cna
@@ -164,6 +169,8 @@ def _table(rng, cna=None, rows=None, want_probes=None, **kw):
     else:
         names = sorted(n for n in ("gene", "log2", "depth", "probes", "strand", "score2") if rng.random() < 0.45)
     genes = rng.sample(GENES, rng.randint(1, min(6, len(GENES))))
+    if free_genes and rng.random() < 0.25:
+        genes = rng.sample(FREE_GENES, rng.randint(1, 3)) + (genes[:2] if rng.random() < 0.5 else [])
     intlike = {n: rng.random() < 0.15 for n in names}  # float column whose values are all integral
     out = []
     for c, s, e in rows:
@@ -440,7 +447,7 @@ def _rt_case(rng, wfmt=None, rfmt=None, tag=None, nmax=36, **kw):
     if wfmt is None:
         wfmt, rfmt = rng.choice(WRITE_PAIRS)
     cna = (wfmt == "tab" and rng.random() < 0.6)
-    t0 = _table(rng, cna=cna if wfmt == "tab" else None, nmax=nmax, **kw)
+    t0 = _table(rng, cna=cna if wfmt == "tab" else None, nmax=nmax, free_genes=(wfmt == "tab"), **kw)
     if wfmt == "tab" and not cna and "log2" in t0["names"] and rng.random() < 0.5:
         pass
     return {"op": "fmt_roundtrip", "tag": tag or f"rt-{wfmt}-{rfmt}{'-cna' if cna else ''}",
@@ -466,6 +473,14 @@ def corpus():
     cases.append({"op": "fmt_roundtrip", "tag": "corpus-I",
                   "in": {"wfmt": "text", "rfmt": "text", "cna": False,
                          "t0": {"names": ["gene"], "rows": [["chrX", 0, 5, [["s", "g"]]], ["chr2", 100, 200, [["s", "-"]]]]}}})
+    # defect U: gene labels that are pandas NA spellings / numbers were lost or altered by the tab reader
+    for cna in (True, False):
+        rows = [["chr1", 1, 2, [["s", "NA"], ["f", "1/2"]]], ["chr1", 3, 4, [["s", "TP53"], ["f", "1/8"]]]]
+        cases.append({"op": "fmt_roundtrip", "tag": "corpus-U",
+                      "in": {"wfmt": "tab", "rfmt": "tab", "cna": cna, "t0": {"names": ["gene", "log2"], "rows": rows}}})
+    rows = [["chr1", 1, 2, [["s", "7157"], ["f", "1/2"]]], ["chr1", 3, 4, [["s", "0012"], ["f", "1/8"]]]]
+    cases.append({"op": "fmt_roundtrip", "tag": "corpus-U",
+                  "in": {"wfmt": "tab", "rfmt": "tab", "cna": True, "t0": {"names": ["gene", "log2"], "rows": rows}}})
     # the order spelled out by the property: 1, 2, 10, X, Y, M (both naming styles), written unsorted
     for p in ("chr", ""):
         rows = [[p + c, 5, 9, []] for c in ("M", "Y", "X", "10", "2", "1")]
